@@ -413,6 +413,60 @@ def run_long(ctx, pt):
     ctx.eq(K + '/fresh-object-after-%d-calls-in-the-process' % N, [(lambda r: (r[0], obs(r[1])))(ctx.attempt(call, o2, i)) for i in probe[:2]], [('ok', b) for b in base[:2]])
 
 
+# ---- argument types: the same byte string handed over as bytes, bytearray, memoryview ---------------------------------
+
+def _typed_kinds():
+    from crysp.sha import SHA1, SHA2, SHA3
+    from crysp.md import MD4, MD5, MD6
+    from crysp.blake import Blake, Blake2
+    from crysp.skein import Skein
+    from crysp.keccak import Keccak
+    from crysp.hmac import HMAC
+    from crysp.aes import AES
+    from crysp.des import DES
+    from crysp import mode as Mo
+    from crysp.rc4 import RC4
+    from crysp.salsa20 import Salsa20
+    from crysp.nilsimsa import Nilsimsa
+    from crysp.tlsh import TLSH
+
+    def md6():
+        o = MD6(256, L=64)
+        o.rounds = 8
+        return o
+    return {
+        'MD4': lambda m: MD4()(m), 'MD5': lambda m: MD5()(m), 'SHA1': lambda m: SHA1(1)(m), 'SHA2-256': lambda m: SHA2(256)(m), 'SHA2-384': lambda m: SHA2(384)(m),
+        'SHA3-256': lambda m: SHA3(256)(m), 'Keccak-b200': lambda m: Keccak(b=200, r=40, len=16)(m), 'Blake-256': lambda m: Blake(256)(m), 'Blake-512': lambda m: Blake(512)(m),
+        'Blake2s': lambda m: Blake2(256)(m), 'Blake2b': lambda m: Blake2(512)(m), 'Skein-256': lambda m: Skein(256, 256)(m), 'Skein-512-tree': lambda m: Skein(512, 512, Yl=1, Yf=1, Ym=2)(m),
+        'MD6-256': lambda m: md6()(m), 'HMAC-MD5': lambda m: HMAC(MD5(), b'key')(m), 'HMAC-SHA2-256 key-as-that-type': lambda m: HMAC(SHA2(256), m)(b'abc') if len(m) else None,
+        'ECB-AES': lambda m: Mo.ECB(AES(ramp(16))).enc(m), 'CBC-DES': lambda m: Mo.CBC(DES(ramp(8, 3, 1)), ramp(8, 9, 4)).enc(m), 'CTR-AES': lambda m: Mo.CTR(AES(ramp(16)), ramp(16, 5, 250)).enc(m),
+        'CTS_CBC-AES': lambda m: Mo.CTS_CBC(AES(ramp(16)), ramp(16, 9, 4)).enc(m) if len(m) >= 16 else None, 'RC4': lambda m: RC4(b'key').enc(m),
+        'Salsa20': lambda m: Salsa20(B1(ramp(32)), 8).enc(B1(ramp(8, 3, 1)), m), 'Nilsimsa': lambda m: Nilsimsa()(m), 'TLSH': lambda m: TLSH(128)(m, True),
+    }
+
+
+def pts_types(tier):
+    return [(k, n) for k in sorted(_typed_kinds()) for n in (0, 1, 55, 64, 65, 150, 700)]
+
+
+def run_types(ctx, pt):
+    """a byte string is a byte string: where a bytearray or a memoryview is accepted at all (a value is returned), the value
+    is the one returned for the equal bytes object; where it is refused, nothing is judged"""
+    name, n = pt
+    f = _typed_kinds()[name]
+    m = expander(n, 91)
+    base = ctx.attempt(f, m)
+    if base[0] != 'ok':
+        return
+    for conv in (bytearray, memoryview):
+        a = conv(m)
+        r = ctx.attempt(f, a)
+        if r[0] == 'ok':
+            ctx.eq('C10/%s/result-depends-on-the-type-of-the-byte-string/%s' % (name, conv.__name__), obs(r[1]), obs(base[1]))
+    # and the bytes call again afterwards
+    ctx.eq('C10/%s/bytes-call-after-other-argument-types' % name, (lambda r: (r[0], obs(r[1])))(ctx.attempt(f, m)), (base[0], obs(base[1])))
+
+
 # ---- first use: every ordered pair of configurations, each pair in its own process ---------------------------
 
 def configs():
@@ -526,7 +580,9 @@ def run_firstuse(ctx, pt):
 
 
 def subchecks():
-    return [Sub('first-use-pairs', pts_firstuse, run_firstuse, engine='H', chunk=1,
+    return [Sub('argument-types', pts_types, run_types, engine='P',
+                bound='24 object kinds x 7 message lengths: the message as bytes, bytearray and memoryview - a returned value equals the one for bytes (refusals are not judged)'),
+            Sub('first-use-pairs', pts_firstuse, run_firstuse, engine='H', chunk=1,
                 bound='every ordered pair (A, B) of 77 configurations (every SHA-2 / SHA-3 / BLAKE / BLAKE2 size incl. the unusual ones, module instances, Keccak, Skein, MD6, HMAC, AES / DES / TDEA / Serpent / Threefish in both directions, modes, stream ciphers, TLSH, Nilsimsa, CRC): A is used first in a fresh process, then B; B answers what it answers when it is the first thing the process does'),
             Sub('long-runs', pts_long, run_long, engine='H', exhaustive=False, chunk=1,
                 bound='20 object kinds (hashes, HMAC, block ciphers, modes, stream ciphers under changing nonces, Nilsimsa, crc32, crc32_fix): one object answers 1100 (thorough 9000) distinct one-shot calls, then the first four again, then a fresh object; answers vs the same call made first in a forked child'),
